@@ -96,7 +96,8 @@ def coq_build(timeout=3000):
             rc, txt = sh(["coq_makefile", "-f", "_CoqProject", "-o", "Makefile"], 120, cwd=COQ)
             if rc != 0:
                 return False, txt, ["_CoqProject"]
-        rc, txt = sh(["make", "-k", "-j16"], timeout, cwd=COQ)
+        # every coqc under a shell timeout: a proof that loops on a changed definition must fail, not hang
+        rc, txt = sh(["make", "-k", "-j16", "COQC=timeout 900 coqc"], timeout, cwd=COQ)
     failed = sorted(set(re.findall(r'File "\./([^"]+\.v)", line \d+, characters [\d-]+:\s*\n(?:Error|.*\n?Error)', txt)))
     if rc != 0 and not failed:
         failed = sorted(set(re.findall(r"\[([^\]]+\.vo)\] Error", txt)))
